@@ -117,6 +117,11 @@ pub trait Scheme: Sized + Send + Sync + 'static {
     ) -> Option<f64> {
         None
     }
+    /// Keys well beyond the sizes of the ordinary table (for checks of properties that could fail only
+    /// above a size threshold); `which` selects among the scheme's large sizes. Default: the ordinary keys.
+    fn keys_large(k: &KeyRaw, tier: Tier, _which: u64) -> Result<Keys<Self>, String> {
+        Self::keys(k, tier)
+    }
 }
 
 // ---------------------------------------------------------------------------------------------
@@ -356,7 +361,20 @@ impl Scheme for Ipa {
 
     fn keys(k: &KeyRaw, _tier: Tier) -> Result<Keys<Self>, String> {
         let max = UNI_DEGS[pick(k.a, UNI_DEGS.len())];
-        let supported_req = 1 + pick(k.b, max);
+        Self::keys_sized(max, 1 + pick(k.b, max))
+    }
+    fn keys_large(_k: &KeyRaw, _tier: Tier, which: u64) -> Result<Keys<Self>, String> {
+        // 256 and 512 generators and a little beyond; the whole key is supported
+        let max = IPA_LARGE[(which % IPA_LARGE.len() as u64) as usize];
+        Self::keys_sized(max, max)
+    }
+    uni_common!(JFr, JUniPoly);
+}
+
+pub const IPA_LARGE: [usize; 4] = [255, 256, 511, 300];
+
+impl Ipa {
+    fn keys_sized(max: usize, supported_req: usize) -> Result<Keys<Self>, String> {
         let pp = memo(format!("ipa:{}", max), || {
             out_to_res(guard(|| IpaPC::setup(max, None, &mut rng(1))), "setup")
         })?;
@@ -377,7 +395,6 @@ impl Scheme for Ipa {
         };
         Ok(Keys { pp, ck, vk, info })
     }
-    uni_common!(JFr, JUniPoly);
 }
 
 // ---------------------------------------------------------------------------------------------
